@@ -266,6 +266,21 @@ def extract_fn(relpath, qual, ann):
             raise Inconclusive(f"anchor lost: loop #{k} of {qual}")
         l = it["loops"][k]
         ed.add(l["body"][0], l["body"][0], "\n" + ltext.rstrip() + "\n", "A1")
+        if l["kind"] == "for":
+            # name the ghost iterator so that the invariant can speak about its position
+            ed.add(l["iter_expr"][0], l["iter_expr"][0], "verif_it: ", "A1")
+    for k, ptext in (ann.get("loopheads") or {}).items():
+        k = int(k)
+        if k >= len(it["loops"]):
+            raise Inconclusive(f"anchor lost: loop #{k} of {qual}")
+        b0 = it["loops"][k]["body"][0]
+        ed.add(b0 + 1, b0 + 1, "\n" + ptext.rstrip() + "\n", "A1")
+    for k, ptext in (ann.get("looptails") or {}).items():
+        k = int(k)
+        if k >= len(it["loops"]):
+            raise Inconclusive(f"anchor lost: loop #{k} of {qual}")
+        b1 = it["loops"][k]["body"][1]
+        ed.add(b1 - 1, b1 - 1, "\n" + ptext.rstrip() + "\n", "A1")
     for name, ptext in (ann.get("before_let") or {}).items():
         occ = 0
         if "#" in name:
@@ -282,6 +297,76 @@ def extract_fn(relpath, qual, ann):
         if occ >= len(hits):
             raise Inconclusive(f"anchor lost: let {name}#{occ} of {qual}")
         ed.add(hits[occ]["span"][1], hits[occ]["span"][1], "\n" + ptext.rstrip() + "\n", "A1")
+    # D2: `X.into_iter()/.iter().map(|p| { BODY; Ok(p) | EXPR }).collect[::<..>]()[?]` -> index loop over X with BODY copied by span
+    for k, inv in (ann.get("maploops") or {}).items():
+        k = int(k)
+        if k >= len(it["closures"]):
+            raise Inconclusive(f"anchor lost: closure #{k} of {qual} (maploop)")
+        c = it["closures"][k]
+        mp = [m for m in it["mcalls"] if m["name"] == "map" and len(m["args"]) == 1 and m["args"][0] == c["span"]]
+        if len(mp) != 1 or len(c["params"]) != 1 or not c["body_is_block"] or not c["body_stmts"]:
+            raise Inconclusive(f"D2: closure #{k} of {qual} is not the argument of a .map(|p| {{..}}) call")
+        mp = mp[0]
+        itc = [m for m in it["mcalls"] if m["name"] in ("into_iter", "iter") and m["span"][1] == mp["recv_end"]]
+        col = [m for m in it["mcalls"] if m["name"] == "collect" and m["recv_end"] == mp["span"][1]]
+        if len(itc) != 1 or len(col) != 1:
+            raise Inconclusive(f"D2: .map of closure #{k} in {qual} is not of the shape X.iter()/into_iter().map(..).collect()")
+        itc, col = itc[0], col[0]
+        chain_start, chain_end = itc["span"][0], col["span"][1]
+        tries = [t for t in it.get("tries", []) if t[0] == chain_start and t[1] == chain_end + 1]
+        if tries:
+            chain_end += 1
+        xsrc = src[chain_start:itc["recv_end"]].decode()
+        ptxt = src[c["params"][0]["span"][0]:c["params"][0]["span"][1]].decode()
+        bind = (f"let {ptxt} = verif_src[verif_i].clone();" if itc["name"] == "into_iter"
+                else f"let {ptxt} = &verif_src[verif_i];")
+        bs0, bs1 = c["body"]
+        head = ("{ let verif_src = " + xsrc + "; let mut verif_out = Vec::new(); let mut verif_i: usize = 0;\n"
+                "while verif_i < verif_src.len()\n" + inv.rstrip() + "\n    decreases verif_src.len() - verif_i\n{ " + bind + "\n")
+        ed.add(chain_start, bs0 + 1, head, "D2", f"map/collect chain over `{xsrc.strip()[:40]}` desugared to an index loop (closure body copied by span)")
+        tail = c["body_stmts"][-1]
+        ts, te = tail["span"]
+        ttxt = src[ts:te].decode()
+        if tail["kind"] != "expr":
+            raise Inconclusive(f"D2: closure #{k} of {qual} has no tail expression")
+        if re.match(r"^Ok\s*\(", ttxt) and ttxt.rstrip().endswith(")"):
+            okp = ts + ttxt.index("(") + 1
+            ed.add(ts, okp, "verif_out.push(", "D2", "closure result `Ok(x)` becomes `push(x)`")
+            ed.add(te - 1, te, "); verif_i = verif_i + 1;", None)
+        else:
+            ed.add(ts, ts, "verif_out.push(", "D2", "closure result becomes `push(..)`")
+            ed.add(te, te, "); verif_i = verif_i + 1;", None)
+        ed.add(bs1, chain_end, " verif_out }", None)
+    # D3: `for PAT in EXPR { BODY }` -> index `while` loop over EXPR (BODY copied by span; `continue` gets the increment)
+    for k, inv in (ann.get("forloops") or {}).items():
+        k = int(k)
+        if k >= len(it["loops"]) or it["loops"][k]["kind"] != "for":
+            raise Inconclusive(f"anchor lost: for-loop #{k} of {qual}")
+        l = it["loops"][k]
+        xs, xe = l["iter_expr"]
+        xtxt = src[xs:xe].decode().strip()
+        ptxt = src[l["pat"][0]:l["pat"][1]].decode()
+        byref = False
+        m = re.match(r"^(.*)\.iter\(\)$", xtxt, re.S)
+        if m:
+            xtxt, byref = m.group(1), True
+        elif xtxt.startswith("&"):
+            xtxt, byref = xtxt[1:].strip(), True
+        m2 = re.match(r"^(.*)\.into_iter\(\)$", xtxt, re.S)
+        if m2:
+            xtxt = m2.group(1)
+        bind = f"let {ptxt} = &verif_v{k}[verif_i{k}];" if byref else f"let {ptxt} = verif_v{k}[verif_i{k}].clone();"
+        b0, b1 = l["body"]
+        head = (f"let verif_v{k} = {'&' if byref else ''}{xtxt}; let mut verif_i{k}: usize = 0;\nwhile verif_i{k} < verif_v{k}.len()\n" + inv.rstrip()
+                + f"\n    decreases verif_v{k}.len() - verif_i{k}\n{{ {bind}\n")
+        ed.add(l["span"][0], b0 + 1, head, "D3", f"`for {ptxt} in {xtxt[:30]}` desugared to an index loop (body copied by span)")
+        ed.add(b1 - 1, b1 - 1, f" verif_i{k} = verif_i{k} + 1; ", None)
+        body_txt = src[b0:b1].decode()
+        for mm in re.finditer(r"\bcontinue\s*;", body_txt):
+            # only `continue`s of THIS loop: reject nested loops inside the body
+            ed.add(b0 + mm.start(), b0 + mm.end(), f"{{ verif_i{k} = verif_i{k} + 1; continue; }}", "D3", "continue target made explicit")
+        if any(o["span"][0] > b0 and o["span"][1] < b1 for o in it["loops"]) and re.search(r"\bcontinue\b", body_txt):
+            raise Inconclusive(f"D3: for-loop #{k} of {qual} has nested loops and `continue`")
     # R6 response attributes
     if ann.get("drop_response_attrs", True):
         for m in it.get("mcalls", []):
